@@ -147,6 +147,7 @@ impl<'tcx, 'a> Cx<'tcx, 'a> {
             Ok(Some(inst)) => {
                 let rd = inst.def_id();
                 v.push(("resolved", J::s(def_path(tcx, rd))));
+                v.push(("resolved_canon", J::s(canon_path(tcx, rd))));
                 v.push(("resolved_local", J::Bool(rd.is_local())));
                 v.push(("resolved_kind", J::s(format!("{:?}", inst.def).split('(').next().unwrap_or("").to_string())));
             }
@@ -546,6 +547,7 @@ pub fn export_bodies<'tcx>(tcx: TyCtxt<'tcx>) -> J {
         let cx = Cx { tcx, body, env };
         let mut v: Vec<(&str, J)> = vec![
             ("path", J::s(def_path(tcx, did))),
+            ("canon", J::s(canon_path(tcx, did))),
             ("def_kind", J::s(format!("{:?}", dk))),
             ("span", span_json(tcx, tcx.def_span(did))),
             ("arg_count", J::Int(body.arg_count as i128)),
